@@ -292,26 +292,6 @@ func diffAt(a, b string) string {
 	return fmt.Sprintf("at byte %d: ...%s... vs ...%s...", i, trunc(wa, 200), trunc(wb, 200))
 }
 
-// dumpField names the top-level Program field in which two dumps first differ.
-func dumpField(a, b string) string {
-	n := len(a)
-	if len(b) < n {
-		n = len(b)
-	}
-	i := 0
-	for i < n && a[i] == b[i] {
-		i++
-	}
-	best := "Program"
-	bestPos := -1
-	for _, f := range []string{"Contracts=", "Imports=", "Functions=", "Constants=", "Variables=", "Types=", "Globals="} {
-		if p := strings.LastIndex(a[:i], f); p > bestPos {
-			bestPos, best = p, strings.TrimSuffix(f, "=")
-		}
-	}
-	return best
-}
-
 // c35Determinism compiles one program repeatedly and compares everything.
 func c35Determinism(src string, reps int) (findings []c37Finding, class string, prog *bbq.InstructionProgram, fns [][]byte, hash string) {
 	checker, why := c35Check(src)
@@ -341,12 +321,12 @@ func c35Determinism(src string, reps int) (findings []c37Finding, class string, 
 				break
 			}
 			if again.bytecode != first.bytecode {
-				findings = append(findings, c37Finding{"compile|nondeterministic|bytecode|" + dumpField(first.bytecode, again.bytecode),
+				findings = append(findings, c37Finding{"compile|nondeterministic|bytecode",
 					fmt.Sprintf("compilation %d of the same checked program differs (peephole=%v): %s", r+1, peephole, diffAt(first.bytecode, again.bytecode))})
 				break
 			}
 			if again.instr != first.instr {
-				findings = append(findings, c37Finding{"compile|nondeterministic|instructions|" + dumpField(first.instr, again.instr),
+				findings = append(findings, c37Finding{"compile|nondeterministic|instructions",
 					fmt.Sprintf("compilation %d of the same checked program differs (peephole=%v): %s", r+1, peephole, diffAt(first.instr, again.instr))})
 				break
 			}
@@ -363,10 +343,10 @@ func c35Determinism(src string, reps int) (findings []c37Finding, class string, 
 			continue
 		}
 		if fresh.bytecode != first.bytecode {
-			findings = append(findings, c37Finding{"compile|nondeterministic-after-recheck|bytecode|" + dumpField(first.bytecode, fresh.bytecode),
+			findings = append(findings, c37Finding{"compile|nondeterministic-after-recheck|bytecode",
 				fmt.Sprintf("re-checking and re-compiling gives a different program (peephole=%v): %s", peephole, diffAt(first.bytecode, fresh.bytecode))})
 		} else if fresh.instr != first.instr {
-			findings = append(findings, c37Finding{"compile|nondeterministic-after-recheck|instructions|" + dumpField(first.instr, fresh.instr),
+			findings = append(findings, c37Finding{"compile|nondeterministic-after-recheck|instructions",
 				fmt.Sprintf("re-checking and re-compiling gives a different program (peephole=%v): %s", peephole, diffAt(first.instr, fresh.instr))})
 		}
 	}
